@@ -18,14 +18,17 @@ log=$WT/confirm.log; : > $log
 echo "== demo on unmodified tree (must pass)" >> $log
 cargo test --offline --test $dn >> $log 2>&1; r_clean=$?
 git apply $SRC/patch.diff >> $log 2>&1 || { echo "patch does not apply" >> $log; r_apply=1; }
-echo "== lib suite with change (must pass, shared_smoke flaky tolerated)" >> $log
-cargo test --lib --offline 2>&1 | grep -E "^test result|FAILED|failed" >> $log
-if grep -qE "^test .*shared_smoke .*FAILED" $log && [ $(grep -cE "^test .* FAILED" $log) -eq 1 ]; then
-  echo "(only the known-flaky shared_smoke failed; re-running lib suite once)" >> $log
-  cargo test --lib --offline 2>&1 | grep -E "^test result" >> $log
-fi
-fails=$(grep -E "^test .* FAILED" $log | grep -v shared_smoke | wc -l)
-libres=$(grep -E "^test result" $log | tail -1)
+echo "== lib suite with change (must pass; the known-flaky ops::delay::tests::shared_smoke is tolerated: up to 3 runs)" >> $log
+libres="none"
+for attempt in 1 2 3; do
+  cargo test --lib --offline > $WT/lib.out 2>&1
+  libres=$(grep -E "^test result" $WT/lib.out | tail -1)
+  echo "attempt $attempt: $libres" >> $log
+  grep -E "^test .* FAILED" $WT/lib.out >> $log
+  if echo "$libres" | grep -q " 0 failed"; then break; fi
+  others=$(grep -E "^test .* FAILED" $WT/lib.out | grep -v shared_smoke | wc -l)
+  if [ $others -ne 0 ]; then break; fi
+done
 echo "== doc tests with change" >> $log
 cargo test --doc --offline 2>&1 | grep -E "^test result" >> $log
 docres=$(grep -E "^test result" $log | tail -1)
